@@ -789,6 +789,19 @@ def _u_choose_index(I, f, a):
     return ok(s)
 
 
+@model("std::ops::RangeInclusive::<Idx>::contains", "std::ops::Range::<Idx>::contains")
+def _range_contains(I, f, a):
+    rng = deref(I, a[0])
+    x = deref(I, a[1])
+    if not (isinstance(rng, Agg) and rng.adt.endswith(("RangeInclusive", "ops::Range")) and len(rng.fields) >= 2):
+        raise I.unanalysable("contains on %r" % (rng,))
+    ty = _tparam(f, 0) if _tparam(f, 0) in INT_TYPES else "usize"
+    lo, hi = rng.fields[0], rng.fields[1]
+    if not I.truth(I.binop("Ge", x, lo, ty)):
+        return False
+    return I.truth(I.binop("Le" if rng.adt.endswith("RangeInclusive") else "Lt", x, hi, ty))
+
+
 @model("std::ops::RangeInclusive::<Idx>::new")
 def _range_incl_new(I, f, a):
     return Agg("std::ops::RangeInclusive", None, [a[0], a[1]])
